@@ -1,3 +1,720 @@
 package main
 
-func classifyLine(u *uni, rn, rv string) string { return "ok late=0 backtracks=0" }
+// Go port of the Lean model (lean/DepsDev/Model/Resolve/Pypi.lean), used ONLY to
+// evaluate the hypotheses of the partial theorems (the classifiers of the known
+// findings) and for run statistics. It is kept equal to the Lean model by the
+// `classify` op (the driver prints the same flags; the runner diffs them) and,
+// indirectly, by `resolve` (simResult must equal the real code's result; checked in
+// run()). It works on the same data the model gets: the universe plus the derived
+// marker and match tables.
+
+import (
+	"fmt"
+	"sort"
+	"strings"
+)
+
+type sver struct {
+	pkg int
+	id  int
+}
+
+type sreq struct {
+	pkg      int
+	row      int
+	ty       string
+	nonEmpty bool
+	hasEqEq  bool
+	extras   []string
+	truth    string
+	src      req
+}
+
+type srow struct {
+	hasPre     bool
+	n, p       []int
+	nErr, pErr bool
+}
+
+type spkg struct {
+	name  string
+	delay bool
+	exts  []string
+	vers  [][]sreq
+	names []string
+}
+
+type suni struct {
+	pkgs []spkg
+	rows []srow
+}
+
+type sinfo struct {
+	r      sreq
+	parent sver
+}
+
+type scrit struct {
+	info     []sinfo
+	extras   []string
+	incompat []int
+	cands    []int
+}
+
+type spin struct {
+	pkg, id int
+	ex      []string
+}
+
+type sstate struct {
+	mapping  []spin
+	criteria map[int]scrit // iteration always by sorted key
+}
+
+const (
+	rOK = iota
+	rConflict
+	rErr
+	rPanic
+)
+
+func buildSim(u *uni) *suni {
+	s := &suni{}
+	idx := map[string]int{}
+	for i, p := range u.Pkgs {
+		idx[p.Name] = i
+	}
+	rowIdx := map[[2]string]int{}
+	for i, m := range u.matchTable(u.client()) {
+		rowIdx[[2]string{m.Pkg, m.Spec}] = i
+		p := u.find(m.Pkg)
+		toIDs := func(vs []string) []int {
+			var out []int
+			for _, v := range vs {
+				for k, w := range p.Vers {
+					if w.V == v {
+						out = append(out, k)
+					}
+				}
+			}
+			return out
+		}
+		s.rows = append(s.rows, srow{hasPre: m.HasPre, n: toIDs(m.N), p: toIDs(m.P), nErr: m.NErr, pErr: m.PErr})
+	}
+	for _, p := range u.Pkgs {
+		sp := spkg{name: p.Name, delay: strings.ToLower(p.Name) == "setuptools", exts: u.extrasOf(p.Name)}
+		for _, v := range p.Vers {
+			var rs []sreq
+			for _, d := range v.Reqs {
+				r := sreq{pkg: idx[d.Pkg], row: rowIdx[[2]string{d.Pkg, d.Spec}], ty: optHx(d.HasEnv, d.Env) + ":" + optHx(d.HasEx, d.Ex),
+					nonEmpty: d.Spec != "", hasEqEq: strings.Contains(d.Spec, "=="), truth: truth(d, sp.exts), src: d}
+				if d.HasEx {
+					r.extras = strings.Split(d.Ex, ",")
+				}
+				rs = append(rs, r)
+			}
+			sp.vers = append(sp.vers, rs)
+			sp.names = append(sp.names, v.V)
+		}
+		s.pkgs = append(s.pkgs, sp)
+	}
+	return s
+}
+
+func containsStr(xs []string, x string) bool {
+	for _, y := range xs {
+		if x == y {
+			return true
+		}
+	}
+	return false
+}
+
+func containsInt(xs []int, x int) bool {
+	for _, y := range xs {
+		if x == y {
+			return true
+		}
+	}
+	return false
+}
+
+type sim struct {
+	u          *suni
+	root       sver
+	direct     []sreq
+	backtracks int
+	rounds     int
+}
+
+func (s *sim) reqsOf(v sver) ([]sreq, bool) {
+	if v.pkg < 0 || v.pkg >= len(s.u.pkgs) || v.id < 0 || v.id >= len(s.u.pkgs[v.pkg].vers) {
+		return nil, false
+	}
+	return s.u.pkgs[v.pkg].vers[v.id], true
+}
+
+func (s *sim) evalMarker(v sver, extras []string, r sreq) (bool, int) {
+	switch r.truth {
+	case "-":
+		return true, rOK
+	case "E":
+		return false, rErr
+	}
+	mask := 0
+	for k, e := range s.u.pkgs[v.pkg].exts {
+		if containsStr(extras, e) {
+			mask |= 1 << k
+		}
+	}
+	if mask >= len(r.truth) {
+		return false, rErr
+	}
+	switch r.truth[mask] {
+	case '1':
+		return true, rOK
+	case '0':
+		return false, rOK
+	}
+	return false, rPanic
+}
+
+func (s *sim) getDependencies(v sver, extras []string) ([]sreq, int) {
+	deps, ok := s.reqsOf(v)
+	if !ok {
+		return nil, rErr
+	}
+	ts := append([]sreq(nil), deps...)
+	end := len(ts)
+	for i := 0; i < end; {
+		ok, st := s.evalMarker(v, extras, ts[i])
+		if st != rOK {
+			return nil, st
+		}
+		if ok {
+			i++
+			continue
+		}
+		end--
+		ts[i], ts[end] = ts[end], ts[i]
+	}
+	return ts[:end], rOK
+}
+
+func (s *sim) matchingVersions(r sreq) ([]int, int) {
+	row := s.u.rows[r.row]
+	if row.nErr {
+		return nil, rErr
+	}
+	if r.pkg != s.root.pkg {
+		return row.n, rOK
+	}
+	if containsInt(row.n, s.root.id) {
+		return []int{s.root.id}, rOK
+	}
+	return nil, rOK
+}
+
+func (s *sim) matchingVersionsPre(r sreq) ([]int, int) {
+	row := s.u.rows[r.row]
+	if row.hasPre {
+		return s.matchingVersions(r)
+	}
+	if row.pErr {
+		return nil, rErr
+	}
+	return row.p, rOK
+}
+
+func sIntersect(a, b []int) []int {
+	var out []int
+	for _, av := range a {
+		for i, bv := range b {
+			if av == bv {
+				b = b[i+1:]
+				out = append(out, av)
+				break
+			}
+		}
+	}
+	return out
+}
+
+func (s *sim) findMatches(reqs []sreq, incompat []int) ([]int, int) {
+	if len(reqs) == 0 {
+		return nil, rOK
+	}
+	anyPre := false
+	if len(reqs) > 1 {
+		for _, r := range reqs {
+			anyPre = anyPre || s.u.rows[r.row].hasPre
+		}
+	}
+	get := s.matchingVersions
+	if anyPre {
+		get = s.matchingVersionsPre
+	}
+	mvs, st := get(reqs[0])
+	if st != rOK {
+		return nil, st
+	}
+	var m []int
+	for _, v := range mvs {
+		if !containsInt(incompat, v) {
+			m = append(m, v)
+		}
+	}
+	if len(m) == 0 {
+		return nil, rConflict
+	}
+	for _, r := range reqs[1:] {
+		mvs, st := get(r)
+		if st != rOK {
+			return nil, st
+		}
+		m = sIntersect(m, mvs)
+	}
+	return m, rOK
+}
+
+func unionStr(a, b []string) []string {
+	out := append([]string(nil), a...)
+	for _, e := range b {
+		if !containsStr(out, e) {
+			out = append(out, e)
+		}
+	}
+	return out
+}
+
+func (s *sim) merge(st *sstate, r sreq, parent sver) (scrit, int) {
+	crit := st.criteria[r.pkg]
+	for _, in := range crit.info {
+		if in.r.row == r.row && in.r.ty == r.ty && in.parent == parent {
+			return crit, rOK
+		}
+	}
+	var reqs []sreq
+	for _, in := range crit.info {
+		reqs = append(reqs, in.r)
+	}
+	reqs = append(reqs, r)
+	m, code := s.findMatches(reqs, crit.incompat)
+	if code != rOK {
+		return scrit{}, code
+	}
+	if len(m) == 0 {
+		return scrit{}, rConflict
+	}
+	return scrit{info: append(append([]sinfo(nil), crit.info...), sinfo{r, parent}), extras: unionStr(crit.extras, r.extras),
+		incompat: crit.incompat, cands: m}, rOK
+}
+
+func (st *sstate) clone() *sstate {
+	c := &sstate{mapping: append([]spin(nil), st.mapping...), criteria: map[int]scrit{}}
+	for k, v := range st.criteria {
+		c.criteria[k] = v
+	}
+	return c
+}
+
+func (st *sstate) names() []int {
+	var ks []int
+	for k := range st.criteria {
+		ks = append(ks, k)
+	}
+	sort.Ints(ks)
+	return ks
+}
+
+func (st *sstate) pin(p int) (int, bool) {
+	for _, m := range st.mapping {
+		if m.pkg == p {
+			return m.id, true
+		}
+	}
+	return 0, false
+}
+
+type prefKey struct {
+	delay               bool
+	rating, order, name int
+}
+
+func (a prefKey) less(b prefKey) bool {
+	if a.delay != b.delay {
+		return !a.delay
+	}
+	if a.rating != b.rating {
+		return a.rating < b.rating
+	}
+	if a.order != b.order {
+		return a.order < b.order
+	}
+	return a.name < b.name
+}
+
+func (s *sim) pref(st *sstate, name int) prefKey {
+	k := prefKey{delay: s.u.pkgs[name].delay, rating: 3, order: 2147483647, name: name}
+	for _, in := range st.criteria[name].info {
+		if in.r.hasEqEq {
+			k.rating = 1
+			break
+		}
+		if in.r.nonEmpty {
+			k.rating = 2
+			break
+		}
+	}
+	for i, d := range s.direct {
+		if d.pkg == name {
+			k.order = i
+		}
+	}
+	return k
+}
+
+// attempt returns the new state, the number of causes, and a status.
+func (s *sim) attempt(st *sstate, name int) (*sstate, int, int) {
+	crit := st.criteria[name]
+	causes := 0
+	for i := len(crit.cands) - 1; i >= 0; i-- {
+		cand := sver{name, crit.cands[i]}
+		deps, code := s.getDependencies(cand, crit.extras)
+		upd := map[int]scrit{}
+		if code == rOK {
+			for _, d := range deps {
+				c, cc := s.merge(st, d, cand)
+				if cc != rOK {
+					code = cc
+					break
+				}
+				upd[d.pkg] = c
+			}
+		}
+		if code == rConflict {
+			causes++
+			continue
+		}
+		if code != rOK {
+			return nil, 0, code
+		}
+		ns := st.clone()
+		var m []spin
+		for _, p := range ns.mapping {
+			if p.pkg != name {
+				m = append(m, p)
+			}
+		}
+		ns.mapping = append(m, spin{name, cand.id, append([]string(nil), crit.extras...)})
+		for k, c := range upd {
+			ns.criteria[k] = c
+		}
+		return ns, 0, rOK
+	}
+	return nil, causes, rOK
+}
+
+// backtrack works on a stack with the top at the END (as Go's).
+func (s *sim) backtrack(states []*sstate) ([]*sstate, bool) {
+	for len(states) >= 3 {
+		states = states[:len(states)-1]
+		broken := states[len(states)-1]
+		states = states[:len(states)-1]
+		type inc struct {
+			name int
+			vs   []int
+		}
+		var incs []inc
+		for _, n := range broken.names() {
+			incs = append(incs, inc{n, broken.criteria[n].incompat})
+		}
+		if len(broken.mapping) > 0 {
+			last := broken.mapping[len(broken.mapping)-1]
+			incs = append(incs, inc{last.pkg, []int{last.id}})
+		}
+		ns := states[len(states)-1].clone()
+		ok := true
+		for _, in := range incs {
+			if len(in.vs) == 0 {
+				continue
+			}
+			crit, has := ns.criteria[in.name]
+			if !has {
+				continue
+			}
+			all := append([]int(nil), crit.incompat...)
+			for _, v := range in.vs {
+				if !containsInt(all, v) {
+					all = append(all, v)
+				}
+			}
+			var m []int
+			for _, c := range crit.cands {
+				if !containsInt(all, c) {
+					m = append(m, c)
+				}
+			}
+			if len(m) == 0 {
+				ok = false
+				break
+			}
+			crit.incompat, crit.cands = all, m
+			ns.criteria[in.name] = crit
+		}
+		states = append(states, ns)
+		if ok {
+			return states, true
+		}
+	}
+	return states, false
+}
+
+// outcome: "graph", "gerr", "err", "panic"
+func (s *sim) resolve(maxRounds int) (*sstate, string) {
+	direct, code := s.getDependencies(s.root, nil)
+	switch code {
+	case rPanic:
+		return nil, "panic"
+	case rOK:
+	default:
+		return nil, "err"
+	}
+	s.direct = direct
+	st := &sstate{criteria: map[int]scrit{}}
+	for _, r := range direct {
+		c, code := s.merge(st, r, s.root)
+		switch code {
+		case rOK:
+			st.criteria[r.pkg] = c
+		case rConflict:
+			return nil, "gerr"
+		case rErr:
+			return nil, "err"
+		default:
+			return nil, "panic"
+		}
+	}
+	states := []*sstate{st, st.clone()}
+	for i := 0; i < maxRounds; i++ {
+		s.rounds++
+		cur := states[len(states)-1]
+		var unsat []int
+		for _, n := range cur.names() {
+			if v, ok := cur.pin(n); ok && containsInt(cur.criteria[n].cands, v) {
+				continue
+			}
+			unsat = append(unsat, n)
+		}
+		if len(unsat) == 0 {
+			return cur, "graph"
+		}
+		minName, min := unsat[0], s.pref(cur, unsat[0])
+		for _, n := range unsat[1:] {
+			if sc := s.pref(cur, n); sc.less(min) {
+				minName, min = n, sc
+			}
+		}
+		ns, causes, code := s.attempt(cur, minName)
+		if code == rErr {
+			return nil, "err"
+		}
+		if code == rPanic {
+			return nil, "panic"
+		}
+		if ns != nil {
+			states[len(states)-1] = ns
+			states = append(states, ns.clone())
+			continue
+		}
+		if causes != 0 {
+			s.backtracks++
+			var ok bool
+			states, ok = s.backtrack(states)
+			if !ok {
+				return nil, "gerr"
+			}
+		} else {
+			states = append(states, cur.clone())
+		}
+	}
+	return nil, "gerr"
+}
+
+type sgraph struct {
+	ids   []sver // node list; ids by package
+	edges []string
+	byPkg map[int]sver
+}
+
+func (s *sim) hasRoute(st *sstate, v sver, conn map[sver]bool) bool {
+	if c, ok := conn[v]; c {
+		return true
+	} else if ok {
+		return false
+	}
+	conn[v] = false
+	crit, ok := st.criteria[v.pkg]
+	if !ok {
+		return false
+	}
+	for _, in := range crit.info {
+		if conn[in.parent] {
+			conn[v] = true
+			return true
+		}
+		if pv, ok := st.pin(in.parent.pkg); !ok || pv != in.parent.id {
+			continue
+		}
+		if s.hasRoute(st, in.parent, conn) {
+			conn[v] = true
+			return true
+		}
+	}
+	return false
+}
+
+func (s *sim) tok(v sver) string {
+	return hx(s.u.pkgs[v.pkg].name) + "@" + hx(s.u.pkgs[v.pkg].names[v.id])
+}
+
+func (s *sim) build(st *sstate) (*sgraph, bool) {
+	conn := map[sver]bool{s.root: true}
+	g := &sgraph{byPkg: map[int]sver{s.root.pkg: s.root}, ids: []sver{s.root}}
+	for _, p := range st.mapping {
+		v := sver{p.pkg, p.id}
+		if !s.hasRoute(st, v, conn) {
+			continue
+		}
+		if _, ok := g.byPkg[p.pkg]; !ok {
+			g.byPkg[p.pkg] = v
+			g.ids = append(g.ids, v)
+		}
+	}
+	for _, to := range g.ids {
+		crit, ok := st.criteria[to.pkg]
+		if !ok {
+			if to.pkg == s.root.pkg {
+				continue
+			}
+			return nil, false
+		}
+		for _, in := range crit.info {
+			f, ok := g.byPkg[in.parent.pkg]
+			if !ok {
+				continue
+			}
+			g.edges = append(g.edges, s.tok(f)+">"+s.tok(to)+":"+hx(in.r.src.Spec)+":"+in.r.ty)
+		}
+	}
+	return g, true
+}
+
+type simOut struct {
+	result     string
+	late       bool
+	route      bool
+	stale      bool
+	backtracks int
+	rounds     int
+}
+
+func subsetReqs(now, then []sreq) bool {
+	for _, d := range now {
+		found := false
+		for _, e := range then {
+			if d.pkg == e.pkg && d.row == e.row && d.ty == e.ty {
+				found = true
+			}
+		}
+		if !found {
+			return false
+		}
+	}
+	return true
+}
+
+func runSim(u *uni, rn, rv string) simOut {
+	su := buildSim(u)
+	root := sver{len(su.pkgs), 0}
+	for i, p := range su.pkgs {
+		if p.name == rn {
+			root = sver{i, len(p.names)}
+			for k, v := range p.names {
+				if v == rv {
+					root.id = k
+				}
+			}
+		}
+	}
+	s := &sim{u: su, root: root}
+	st, kind := s.resolve(200000)
+	out := simOut{backtracks: s.backtracks, rounds: s.rounds}
+	switch kind {
+	case "err", "panic":
+		out.result = kind
+		return out
+	case "gerr":
+		out.result = "ok gerr=1"
+		return out
+	}
+	g, ok := s.build(st)
+	if !ok {
+		out.result = "err"
+		return out
+	}
+	var nodes []string
+	for _, v := range g.ids {
+		nodes = append(nodes, s.tok(v))
+	}
+	rootTok := nodes[0]
+	sort.Strings(nodes)
+	sort.Strings(g.edges)
+	out.result = "ok gerr=0 root=" + rootTok + " N=" + strings.Join(nodes, ",") + " E=" + strings.Join(g.edges, ",")
+	// hypothesis noLateExtras
+	for _, p := range st.mapping {
+		v := sver{p.pkg, p.id}
+		now, c1 := s.getDependencies(v, st.criteria[p.pkg].extras)
+		then, c2 := s.getDependencies(v, p.ex)
+		if c1 != rOK || c2 != rOK || !subsetReqs(now, then) {
+			out.late = true
+		}
+	}
+	// hypothesis routeClosed
+	for _, p := range st.mapping {
+		crit, ok := st.criteria[p.pkg]
+		if !ok {
+			continue
+		}
+		hasNodeParent := false
+		for _, in := range crit.info {
+			if f, ok := g.byPkg[in.parent.pkg]; ok && f == in.parent {
+				hasNodeParent = true
+			}
+		}
+		if _, isNode := g.byPkg[p.pkg]; hasNodeParent && !isNode {
+			out.route = true
+		}
+	}
+	// hypothesis noStale
+	for _, to := range g.ids {
+		for _, in := range st.criteria[to.pkg].info {
+			if f, ok := g.byPkg[in.parent.pkg]; !ok || f != in.parent {
+				out.stale = true
+			}
+		}
+	}
+	return out
+}
+
+func b01(b bool) string {
+	if b {
+		return "1"
+	}
+	return "0"
+}
+
+func classifyLine(u *uni, rn, rv string) string {
+	o := runSim(u, rn, rv)
+	return fmt.Sprintf("ok late=%s route=%s stale=%s", b01(o.late), b01(o.route), b01(o.stale))
+}
